@@ -69,7 +69,7 @@ func randomString(r *rand.Rand, xmlLegal bool) string {
 		case 2:
 			b.WriteRune(rune(0x1F300 + r.Intn(0x300))) // astral plane
 		case 3:
-			b.WriteString(pick(r, []string{"<", ">", "&", "\"", "'", "\\", "/", " "}))
+			b.WriteString(pick(r, []string{"<", ">", "&", "\"", "'", "\\", "/", " ", "\\u003c", "\\u0026", "\\u003e", "\\n", "&lt;"}))
 		case 4:
 			if xmlLegal {
 				b.WriteString(pick(r, []string{"\t", "x"}))
@@ -111,7 +111,7 @@ func mimeOf(codec string) string {
 }
 
 // serialise with the real entity writer of that codec
-func writeWithEntityWriter(v entVal, codec string, pretty bool) []byte {
+func writeWithEntityWriter(v interface{}, codec string, pretty bool) []byte {
 	restful.PrettyPrintResponses = pretty
 	c := restful.NewContainer()
 	ws := new(restful.WebService).Path("/w").Produces(restful.MIME_JSON, restful.MIME_XML)
@@ -184,6 +184,8 @@ func runEntitySeq(tw *traceWriter, r *rand.Rand, kinds []entKind, provider strin
 	var untyped map[string]interface{}
 	var readErr error
 	var readErr2 error
+	var anyVal interface{}
+	var readErr3 error
 	c := restful.NewContainer()
 	ws := new(restful.WebService).Path("/e")
 	ws.Route(ws.POST("/typed").To(func(req *restful.Request, resp *restful.Response) {
@@ -194,7 +196,14 @@ func runEntitySeq(tw *traceWriter, r *rand.Rand, kinds []entKind, provider strin
 		untyped = nil
 		readErr2 = req.ReadEntity(&untyped)
 	}))
+	ws.Route(ws.POST("/any").To(func(req *restful.Request, resp *restful.Response) {
+		anyVal = nil
+		readErr3 = req.ReadEntity(&anyVal)
+	}))
 	c.Add(ws)
+	// JSON documents of a few bytes (the codecs' common domain has them too)
+	smalls := []interface{}{map[string]interface{}{}, []interface{}{}, json.Number("7"), json.Number("0"), "", "a", true,
+		json.Number("42"), []interface{}{json.Number("1")}, map[string]interface{}{"a": json.Number("1")}, "\\u003c"}
 	afterDamage := false
 	for i, k := range kinds {
 		pretty := r.Intn(2) == 0
@@ -240,6 +249,19 @@ func runEntitySeq(tw *traceWriter, r *rand.Rand, kinds []entKind, provider strin
 				n, ok := untyped["I64"].(json.Number)
 				u, ok2 := untyped["U64"].(json.Number)
 				numExact = ok && ok2 && n.String() == strconv.FormatInt(v.I64, 10) && u.String() == strconv.FormatUint(v.U64, 10)
+			}
+		}
+		if got == "ok" && k.Codec == "json" && k.Dmg == "none" {
+			sv := smalls[r.Intn(len(smalls))]
+			body3 := encodeBody(writeWithEntityWriter(sv, "json", pretty), k)
+			hr3, _ := buildRequest("POST", "/e/any", hdr, body3, len(body3) == 0)
+			pv3 := safely(func() { c.Dispatch(httptest.NewRecorder(), hr3) })
+			if pv3 != "" {
+				got = "panic"
+			} else if readErr3 != nil {
+				got = "error"
+			} else {
+				equal = equal && reflect.DeepEqual(anyVal, sv)
 			}
 		}
 		restful.DefaultRequestContentType("")
